@@ -32,7 +32,7 @@ type c07FieldCase struct {
 func c07FieldMatrix() []c07FieldCase {
 	var out []c07FieldCase
 	all := c07ByteSet(true)
-	strat := c07ByteSet(verifh.Thorough())
+	strat := c07ByteSet(false) // the stratified set in both tiers (thorough: every position, every (offset, byte) pair, every reacting option set)
 	gb := "<html><head><meta charset=\"gbk\"></head>\xc4\xe3\xba\xc3</html>"
 	add := func(h string, fields [][2]string, body string, opts ...string) {
 		out = append(out, c07FieldCase{h, fields, body, opts})
